@@ -28,7 +28,7 @@ PROP = "C12"
 
 PLAY = """title results <of> a "play" & more \\u003c
 role r
-  :ok echo hello; touch notes.txt 'notes.txt~' '#notes.txt#' '#draft~'; [ -e pipe ] || mkfifo pipe; mkdir -p rel; ln -sfn rel current; ln -sf notes.txt last.txt
+  :ok echo hello; touch notes.txt 'notes.txt~' '#notes.txt#' '#draft~' "$HOME/.toolrc-$(basename $PWD)"; [ -e pipe ] || mkfifo pipe; mkdir -p rel; ln -sfn rel current; ln -sf notes.txt last.txt
   :bad false
   :slow sleep 0.05; echo slept; printf '\\u003cb\\u003e \\u0026 <i>"q"</i> & \\\\ done\\n'
   spotlight while true; do echo "v $RANDOM"; echo "e boo"; sleep 0.02; done
